@@ -967,3 +967,24 @@ RECIPES += [
      '            Count[j] = [count[amp >= level].sum() for level in BinAmps[j].tolist()]\n',
      "pass 5: cumulative counts of a row over the row's .tolist()"),
 ]
+
+# last pass: the label form built by nested str.format calls on literal templates ({{ }} escapes, numbered fields)
+_FORM_OLD = ('        f = "{:." + str(precision) + "f}"\n        f = f + ", " + f\n        if right:\n            form = "(" + f + "]"\n'
+             '        else:\n            form = "[" + f + ")"\n')
+RECIPES += [
+    ("C10", 'neutral', [], CYC, _FORM_OLD,
+     '        f = "{{:.{}f}}".format(precision)\n        f = "{0}, {0}".format(f)\n        if right:\n            form = "({}]".format(f)\n'
+     '        else:\n            form = "[{})".format(f)\n',
+     'last pass: label form built by nested str.format calls on literal templates'),
+    ("C10", 'neutral', [], CYC, _FORM_OLD,
+     '        form = "{0}{{:.{2}f}}, {{:.{2}f}}{1}".format("(" if right else "[", "]" if right else ")", precision)\n',
+     'last pass: label form from one numbered-field template, brackets chosen by conditional expressions'),
+    ("C10", 'break', ['C10-R5'], CYC, _FORM_OLD,
+     '        f = "{{:.{}f}}".format(precision)\n        f = "{0}, {0}".format(f)\n        if right:\n            form = "[{}]".format(f)\n'
+     '        else:\n            form = "[{})".format(f)\n',
+     'last pass: str.format label form with the wrong opening bracket for right=True'),
+    ("C10", 'break', ['C10-R5'], CYC, _FORM_OLD,
+     '        f = "{{:.{}f}}".format(precision)\n        f = "{0}, {0}".format(f)\n        if right:\n            form = "[{})".format(f)\n'
+     '        else:\n            form = "({}]".format(f)\n',
+     'last pass: str.format label forms of the two `right` settings exchanged'),
+]
